@@ -1,2 +1,13 @@
 import Ufw.Props.C05
-#print axioms Ufw.Props.C05.uninitialised_refuses
+#print axioms Ufw.Props.C05.set_refused_unchanged
+#print axioms Ufw.Props.C05.set_other_get
+#print axioms Ufw.Props.C05.set_preserves_sat
+#print axioms Ufw.Props.C05.set_keeps_layout
+#print axioms Ufw.Props.C05.sets_preserve_sat
+#print axioms Ufw.Props.C05.bit_op_spec
+#print axioms Ufw.Props.C05.bit_op_refuses
+#print axioms Ufw.Props.C05.bit_op_refused_unchanged
+#print axioms Ufw.Props.C05.get_value_wf
+#print axioms Ufw.Props.C05.bit_op_is_set
+#print axioms Ufw.Props.C05.history_preserves_sat
+#print axioms Ufw.Props.C05.block_write_refused_unchanged
